@@ -158,7 +158,8 @@ let peak = ref 0 and cap_hint = ref 0
 let compare_tree_snap (coll: string) key_of (snap: 'e snap) (mt: 'e tree) (mp: pool) =
   (* the peak population is followed on the model after every operation: snapshots of the
      implementation may be sparse (ITV_SNAP_EVERY), and a peak between two of them must count *)
-  let mstored = int_of_nat (size0 mt) in
+  let rec tsize = function E -> 0 | T (_, l, _, _, r) -> tsize l + 1 + tsize r in
+  let mstored = tsize mt in
   if mstored > !peak then peak := mstored;
   match snap with
   | NoSnap -> ()
@@ -635,16 +636,16 @@ let process_op_line (st: hstate ref) (line: string) ~(terminated: bool) =
           if no_handles ans <> sa then mismatch "SPEC" ~impl:(no_handles ans) ~model:sa;
           if only_handles ans <> only_handles ma then mismatch "HANDLES" ~impl:ans ~model:ma;
           (* the abstraction of the implementation's state is the specification's state *)
-          let sorted_spec = List.sort compare (List.map (fun (a, b) -> (int_of_z a, int_of_z b)) !spec) in
+          let sorted_spec = lazy (List.sort compare (List.map (fun (a, b) -> (int_of_z a, int_of_z b)) !spec)) in
           let fmt_pairs l = unwords (List.map (fun (a, b) -> Printf.sprintf "%d %d" a b) l) in
           (match !m with
            | MT _ ->
              (match parse_tree_snap ment_of 2 snap with
               | Snap (t, _) ->
                 let impl_ents = List.map (fun (a, b) -> (int_of_z a, int_of_z b)) (ents t) in
-                if impl_ents <> sorted_spec then mismatch "ABS" ~impl:(fmt_pairs impl_ents) ~model:(fmt_pairs sorted_spec)
+                if impl_ents <> Lazy.force sorted_spec then mismatch "ABS" ~impl:(fmt_pairs impl_ents) ~model:(fmt_pairs (Lazy.force sorted_spec))
               | _ -> ())
-           | ML _ -> if snap <> "-" && snap <> fmt_pairs sorted_spec then mismatch "ABS" ~impl:snap ~model:(fmt_pairs sorted_spec));
+           | ML _ -> if snap <> "-" && snap <> fmt_pairs (Lazy.force sorted_spec) then mismatch "ABS" ~impl:snap ~model:(fmt_pairs (Lazy.force sorted_spec)));
           (match !m with
            | MT s -> compare_tree_snap !cur_coll mkey (parse_tree_snap ment_of 2 snap) s.root s.pl
            | ML l ->
